@@ -163,12 +163,16 @@ def analyse(fn, spec):
                 d = _local(fn, nd["ch"][0])
                 cf = _cursor_field(fn, nd["ch"][0], spec)
                 wrap = nd["op"] == "%=" and _is_len(fn, nd["ch"][1], spec)
+                rj = nodes[fn.strip(nd["ch"][1])]
+                inc1 = nd["op"] == "+=" and rj["k"] == "Int" and rj.get("v") == 1      # x += 1 is x++
                 if d is not None and nodes[fn.strip(nd["ch"][0])]["k"] == "DeclRef":
-                    st[d] = N if wrap else T
+                    st[d] = N if wrap else ((N1 if st.get(d, T) == N else T) if inc1 else T)
+                    v = st[d]
                 elif cf is not None:
-                    st["#c:" + cf] = N if wrap else T
+                    st["#c:" + cf] = N if wrap else ((N1 if st.get("#c:" + cf, N) == N else T) if inc1 else T)
+                    v = st["#c:" + cf]
                     st.pop("#nz:" + cf, None)
-                    if collect is not None and not wrap:
+                    if collect is not None and not wrap and not inc1:
                         collect.append({"node": e, "kind": "cursor-advance", "index": e, "state": T, "storage": cf})
             elif k == "Var":
                 if nd["ch"]:
